@@ -166,7 +166,7 @@ var jsonCorruptBytes = []byte("{}[]:,\"\\/-+01.eEtrufalsn xyzAF \t\n?\x01")
 
 func runJSONPos(rep *vh.Report) {
 	r := vh.NewRand(17003)
-	n := vh.Pick(6000, 150000)
+	n := vh.Pick(8000, 200000)
 	for i := 0; i < n; i++ {
 		budget := 5 + r.Intn(60)
 		txt := jWS(r) + jValue(r, 1+r.Intn(5), 1+r.Intn(5), &budget) + jWS(r)
